@@ -47,11 +47,13 @@ func round6(c *Ctx) {
 		r9ListsOfBytesAndTaggedFields(c)
 	case "C01":
 		r9KeysThatAreNumerals(c)
+		r11ListsOfMixedObjects(c)
 	case "C18":
 		r8NeedlesEndingInAQuote(c)
 	case "C17":
 		r6KeysThatFoldTogetherAcrossElements(c)
 		r10ElementsThatAreAllZero(c)
+		r11ListsOfMixedObjects(c)
 	case "C19":
 		r6NilThenSetStructPointers(c)
 		r6AllZeroStructs(c)
@@ -760,5 +762,36 @@ func r10OneQueryAfterAnother(c *Ctx) {
 				}
 			}
 		}
+	}
+}
+
+// lists held in []any whose objects are of DIFFERENT carriers: struct types that declare the same keys at other positions, pointers to
+// them, maps, a struct that lacks the key - the key stepped across the list yields that key's value from every element that has it,
+// whatever the first element happens to be
+func r11ListsOfMixedObjects(c *Ctx) {
+	n := func(v int) *TV { return tvInt("int", fmt.Sprint(v)) }
+	orderLine := func(q, p int) *TV { return tvStruct([][3]any{{"Qty", 1, n(q)}, {"Price", 1, n(p)}}) }
+	quoteLine := func(q, p int) *TV { return tvStruct([][3]any{{"Price", 1, n(p)}, {"Note", 1, tvStr("x")}, {"Qty", 1, n(q)}}) }
+	asMap := func(q, p int) *TV { return tvMap("str", [][2]any{kv("Qty", n(q)), kv("Price", n(p))}) }
+	onlyA := func() *TV { return tvStruct([][3]any{{"A", 1, n(1)}}) }
+	doc := func(xs ...*TV) *TV { return tvMap("str", [][2]any{kv("xs", tvSlice(1, xs...))}) }
+	names := []string{"all-maps", "mixed"}
+	pairs := [][2]*TV{
+		{doc(asMap(1, 10), asMap(2, 20), asMap(4, 40)), doc(orderLine(1, 10), quoteLine(2, 20), tvPtr(orderLine(4, 40)))},
+		{doc(asMap(1, 10), asMap(2, 20)), doc(orderLine(1, 10), asMap(2, 20))},
+		{doc(asMap(1, 10), asMap(2, 20), asMap(4, 40)), doc(quoteLine(1, 10), orderLine(2, 20), asMap(4, 40))},
+		{doc(asMap(1, 10), asMap(2, 20), asMap(4, 40)), doc(tvPtr(quoteLine(1, 10)), tvPtr(orderLine(2, 20)), quoteLine(4, 40))},
+		{doc(tvMap("str", [][2]any{kv("A", n(1))}), asMap(2, 3)), doc(onlyA(), orderLine(2, 3))},
+		{doc(asMap(1, 2), tvMap("str", [][2]any{kv("Qty", n(5))})), doc(orderLine(1, 2), tvStruct([][3]any{{"Qty", 1, n(5)}}))},
+	}
+	for _, pr := range pairs {
+		ds := []*TV{pr[0], pr[1]}
+		for _, key := range []string{"Qty", "Price", "qty", "PRICE"} {
+			for _, agg := range []string{"", ".Sum()", ".Count()", ".Index(1)", ".Last()", ".First()", ".Maximum()", ".Average()"} {
+				c.sameAcross("$.xs."+key+agg, names, ds, "round11/lists-of-mixed-objects")
+			}
+			c.sameAcross("$.xs.Select(\"$."+key+"\").Sum()", names, ds, "round11/lists-of-mixed-objects")
+		}
+		c.sameAcross("$.xs[@.Qty.Greater(1)].Price", names, ds, "round11/lists-of-mixed-objects")
 	}
 }
